@@ -1452,7 +1452,9 @@ FormatterToXML::writeNormalizedChars(
             if (0xd800u <= unsigned(c) && unsigned(c) < 0xdc00) 
             {
                 // UTF-16 surrogate
-                XalanDOMChar    next = 0;
+                // The scalar value of a surrogate pair does not fit
+                // into a UTF-16 code unit...
+                XalanUnicodeChar    next = 0;
 
                 if (i + 1 >= end) 
                 {
@@ -1464,10 +1466,10 @@ FormatterToXML::writeNormalizedChars(
 
                     if (!(0xdc00 <= next && next < 0xe000))
                     {
-                        throwInvalidUTF16SurrogateException(c, next, getMemoryManager());
+                        throwInvalidUTF16SurrogateException(c, static_cast<XalanDOMChar>(next), getMemoryManager());
                     }
 
-                    next = XalanDOMChar(((c - 0xd800) << 10) + next - 0xdc00 + 0x00010000);
+                    next = ((c - 0xd800) << 10) + next - 0xdc00 + 0x00010000;
                 }
 
                 writeNumberedEntityReference(next);
